@@ -178,7 +178,9 @@ def get_data_json_path(sid_path: Path) -> Path:
 
     # TODO: add file rotation
     # (the stem, not with_suffix: for a name starting with a dot, ".x" is the suffix of "..x", and all such names would share "..data.json")
-    data_path = sid_path.with_name('.' + sid_path.stem + path_data_suffix)
+    # Only a file has an extension: the folders "mr.smith" and "mr.jones" are different entities, each with its own data.
+    name = sid_path.stem if sid_path.is_file() else sid_path.name
+    data_path = sid_path.with_name('.' + name + path_data_suffix)
     return data_path
 
 # End of Config for WriteToPaths & GetFromPaths
